@@ -13,6 +13,9 @@ Values are encoded as  {"n":0} None | {"b":bool} | {"i":int} | {"f":[num,den]} f
                        | {"t":[..]} tuple | {"l":[..]} list | {"d":[[key,val],..]} dict (key = encoded value).
 """
 from fractions import Fraction
+import collections as _collections
+import collections.abc as _abc
+import types as _types
 
 HINT = {"dA": "action", "dAP": "action_prob", "dPM": "pmf"}
 
@@ -20,6 +23,54 @@ HINT = {"dA": "action", "dAP": "action_prob", "dPM": "pmf"}
 class BatchList(list):
     """what coba.environments.Batch produces for batched interaction values (is_batch marker on a list)"""
     is_batch = True
+
+
+class PlainMapping(_abc.Mapping):
+    """a minimal collections.abc.Mapping that is not a dict"""
+
+    def __init__(self, d):
+        self._d = dict(d)
+
+    def __getitem__(self, k):
+        return self._d[k]
+
+    def __iter__(self):
+        return iter(self._d)
+
+    def __len__(self):
+        return len(self._d)
+
+    def __repr__(self):
+        return "PlainMapping(%r)" % (self._d,)
+
+
+class DictSubclass(dict):
+    pass
+
+
+def as_mapping(d, flavour):
+    """the kwargs payload in one of the Mapping flavours a learner may return (SafeLearner tests `abc.Mapping`)"""
+    if flavour in (None, "dict"):
+        return d
+    if flavour == "ordered":
+        return _collections.OrderedDict(d)
+    if flavour == "default":
+        dd = _collections.defaultdict(list)
+        dd.update(d)
+        return dd
+    if flavour == "subclass":
+        return DictSubclass(d)
+    if flavour == "proxy":
+        return _types.MappingProxyType(dict(d))
+    if flavour == "plain":
+        return PlainMapping(d)
+    if flavour == "chain":
+        return _collections.ChainMap(dict(d))
+    raise ValueError(flavour)
+
+
+DICT_FLAVOURS = ("dict", "ordered", "default", "subclass")          # isinstance(x, dict)
+MAPPING_FLAVOURS = ("proxy", "plain", "chain")                       # abc.Mapping but not dict
 
 
 def dec(v):
@@ -63,7 +114,7 @@ def enc(o):
         return {"t": [enc(e) for e in o]}
     if isinstance(o, list):
         return {"l": [enc(e) for e in o]}
-    if isinstance(o, dict):
+    if isinstance(o, _abc.Mapping):
         return {"d": [[enc(a), enc(b)] for a, b in o.items()]}
     return {"s": "object:" + type(o).__name__}
 
@@ -74,7 +125,7 @@ def freeze(o):
         return ("t",) + tuple(freeze(e) for e in o)
     if isinstance(o, list):
         return ("l",) + tuple(freeze(e) for e in o)
-    if isinstance(o, dict):
+    if isinstance(o, _abc.Mapping):
         return ("d", frozenset((freeze(a), freeze(b)) for a, b in o.items()))
     return o
 
@@ -123,7 +174,7 @@ class Scripted:
         return pmf if self.case.get("pmf_type", "list") == "list" else tuple(pmf)
 
     def _kwargs(self, row):
-        return {dec(k): dec(v) for k, v in row["kwargs"]}
+        return as_mapping({dec(k): dec(v) for k, v in row["kwargs"]}, self.case.get("kwmap"))
 
     def _core(self, row, actions):
         """the format-specific fields of one row, as a list of columns' entries"""
@@ -182,7 +233,7 @@ class Scripted:
         kwcol = None
         if self.kw:
             kws = [self._kwargs(r) for r in rows]
-            kwcol = {k: [kw[k] for kw in kws] for k in kws[0]}
+            kwcol = as_mapping({k: [kw[k] for kw in kws] for k in kws[0]}, self.case.get("kwmap"))
         if f in ("A", "AP"):
             cols = [list(c) for c in zip(*[self._core(r, a) for r, a in zip(rows, actions)])]
         elif f == "PM":
